@@ -7,7 +7,7 @@ import shutil
 from analysis import (Prov, Guards, fmt, fmt_short, walk, roots, short, comparison, find_calls, callee_matches,
                       must_pass, path_to, describe_path)
 from facts import AnchorError, strip_closure
-from harness import Rule, VERIF, REPO
+from harness import Rule, VERIF, REPO, guarded
 
 PID = "C20"
 EXPLANATION = (
@@ -297,4 +297,5 @@ def r3(ctx):
 
 
 def run(ctx):
-    return [r_types(ctx), r1(ctx), r2(ctx), r3(ctx)]
+    G = lambda l, f, *a: guarded("C20." + l, f, ctx, *a)
+    return G("W1", r_types) + G("R1", r1) + G("R2", r2) + G("R3", r3)
